@@ -12,12 +12,14 @@ prop, n = args[0], args[1]
 extra = args[2:]
 src = (src_root % prop) + '/' + n
 n = as_n or n
+if src_root == 'KEPT':
+    src = f'/verif/seeded/{prop}-{n}'          # re-confirm a change that is already kept (after fix: commits moved HEAD)
 out = subprocess.run(['/verif/tools/try_seed.sh', prop, src, 'quick'] + extra, capture_output=True, text=True).stdout.strip()
 m = re.search(r'tests=\[(.*?)\] demo_clean=(\d+) demo_mut=(\d+) checks:(.*)$', out)
 dst = f'/verif/seeded/{prop}-{n}'
 os.makedirs(dst, exist_ok=True)
 for f in ('patch.diff', 'demo.py', 'note.txt'):
-    if os.path.exists(os.path.join(src, f)):
+    if os.path.exists(os.path.join(src, f)) and os.path.abspath(src) != os.path.abspath(dst):
         shutil.copy(os.path.join(src, f), os.path.join(dst, f))
 meta = dict(property=prop, seed=int(n), raw=out)
 if m:
